@@ -84,7 +84,7 @@ def verbRun (e : Env) (f : List (List Nat)) (trace : Bool) : List Nat :=
     | none => 100000
   match assemble e.real text with
   | none => str "parse-error"
-  | some prog => VM.observe prog globals maxSteps trace
+  | some prog => VM.observe prog globals maxSteps trace (assemble e.real)
 
 def verbStart (e : Env) (f : List (List Nat)) : List Nat :=
   let text := f.headD []
@@ -102,7 +102,7 @@ def verbStart (e : Env) (f : List (List Nat)) : List Nat :=
     | none => 0
   match assemble e.real text with
   | none => str "parse-error"
-  | some prog => VM.observeStart prog globals maxRuntime maxLoops age
+  | some prog => VM.observeStart prog globals maxRuntime maxLoops age (assemble e.real)
 
 def handle (e : Env) (verb : String) (f : List (List Nat)) : List Nat :=
   if verb == "asm" then verbAsm e f
